@@ -646,6 +646,11 @@ pub(crate) fn run(
                         // Referenced group hasn't matched, so the backref doesn't match either
                         break 'fail;
                     }
+                    if lo > hi {
+                        // Referenced group is currently open (its start was saved again, its end
+                        // is still from an earlier iteration), so there is no text to refer to
+                        break 'fail;
+                    }
                     let ref_text = &s[lo..hi];
                     let ix_end = ix + ref_text.len();
                     if !matches_literal(s, ix, ix_end, ref_text) {
